@@ -506,6 +506,39 @@ def innerEmptyFrom : Nat → List Str → List Nat
   | _, [_] => []
   | i, p :: q :: rest => (if p.isEmpty then [i] else []) ++ innerEmptyFrom (i + 1) (q :: rest)
 
+/-- `IPv6Address._ip_int_from_string` from "An IPv6 address can't have more than 8 colons" on:
+the parts after a dotted-quad tail has been replaced by two hextets -/
+def ipv6FromParts (parts : List Str) : Option Nat :=
+  if parts.length > 9 then none else
+  -- indices 1 .. len-2 that are empty
+  let inner := innerEmptyFrom 1 parts.tail
+  match inner with
+  | _ :: _ :: _ => none                      -- more than one '::'
+  | [skip] =>
+    let hi0 := skip
+    let lo0 := parts.length - skip - 1
+    let first := parts.head?.getD []
+    let lastp := parts.getLast?.getD []
+    let hi? : Option Nat :=
+      if first.isEmpty then (if hi0 - 1 ≠ 0 then none else some (hi0 - 1)) else some hi0
+    match hi? with
+    | none => none
+    | some hi =>
+      let lo? : Option Nat :=
+        if lastp.isEmpty then (if lo0 - 1 ≠ 0 then none else some (lo0 - 1)) else some lo0
+      match lo? with
+      | none => none
+      | some lo =>
+        if hi + lo > 7 then none else           -- parts_skipped < 1
+        match hextetsVal (parts.take hi), hextetsVal (parts.drop (parts.length - lo)) with
+        | some h, some l => some (h * 2 ^ (16 * (8 - hi)) + l)
+        | _, _ => none
+  | [] =>
+    if parts.length ≠ 8 then none
+    else if (parts.head?.getD []).isEmpty then none
+    else if (parts.getLast?.getD []).isEmpty then none
+    else hextetsVal parts
+
 /-- `IPv6Address._ip_int_from_string` -/
 def ipv6FromString (s : Str) : Option Nat :=
   if s.isEmpty then none else
@@ -520,36 +553,7 @@ def ipv6FromString (s : Str) : Option Nat :=
     else some parts
   match parts? with
   | none => none
-  | some parts =>
-    if parts.length > 9 then none else
-    -- indices 1 .. len-2 that are empty
-    let inner := innerEmptyFrom 1 parts.tail
-    match inner with
-    | _ :: _ :: _ => none                      -- more than one '::'
-    | [skip] =>
-      let hi0 := skip
-      let lo0 := parts.length - skip - 1
-      let first := parts.head?.getD []
-      let lastp := parts.getLast?.getD []
-      let hi? : Option Nat :=
-        if first.isEmpty then (if hi0 - 1 ≠ 0 then none else some (hi0 - 1)) else some hi0
-      match hi? with
-      | none => none
-      | some hi =>
-        let lo? : Option Nat :=
-          if lastp.isEmpty then (if lo0 - 1 ≠ 0 then none else some (lo0 - 1)) else some lo0
-        match lo? with
-        | none => none
-        | some lo =>
-          if hi + lo > 7 then none else           -- parts_skipped < 1
-          match hextetsVal (parts.take hi), hextetsVal (parts.drop (parts.length - lo)) with
-          | some h, some l => some (h * 2 ^ (16 * (8 - hi)) + l)
-          | _, _ => none
-    | [] =>
-      if parts.length ≠ 8 then none
-      else if (parts.head?.getD []).isEmpty then none
-      else if (parts.getLast?.getD []).isEmpty then none
-      else hextetsVal parts
+  | some parts => ipv6FromParts parts
 
 /-- `IPv6Address(str)` -/
 def ipv6Address (s : Str) : Option (Nat × Option Str) :=
